@@ -60,7 +60,23 @@ def _corpus():
         {"k": "sub", "a": 0, "fuel": 10, "or": [], "p": [["set"] + q0 + [0], ["qalloc"] + q0, ["set", 0, 3, 5]]},
         {"k": "init", "a": 0, "n": 2},
         {"k": "sub", "a": 0, "fuel": 10, "or": [], "p": [["set"] + q0 + [1], ["qalloc"] + q0]}]}
+    alloc0 = {"k": "sub", "a": 0, "fuel": 10, "or": [], "p": [["set"] + q0 + [0], ["qalloc"] + q0, ["set", 0, 3, 5],
+                                                                ["ret_reg", 0, 3]]}
+    alloc1 = {"k": "sub", "a": 0, "fuel": 10, "or": [], "p": [["set"] + q0 + [1], ["qalloc"] + q0]}
+    i0, s0 = {"k": "init", "a": 0, "n": 2}, {"k": "stop", "a": 0}
+    i1, s1 = {"k": "init", "a": 1, "n": 1}, {"k": "stop", "a": 1}
+    # life cycles with refused operations in the middle: a duplicate registration after a stop/re-register
+    # cycle; a refused duplicate registration followed by stop and re-registration; refused stops
+    cycles = [
+        [i0, s0, i0, alloc0, i0, alloc1, s0, i0, alloc0],
+        [i0, alloc0, i0, s0, i0, alloc0, s0],
+        [i0, i1, alloc0, s0, i0, i0, alloc0, i1, s1, s0, s0, i0, i1],
+        [s0, i0, alloc0, s1, i0, s0, s0, i0, i0, alloc0],
+    ]
     out = [f16, f27, dict(f16, msg=True), dict(f27, msg=True)]
+    for ops in cycles:
+        for msg in (False, True):
+            out.append({"hw": False, "msg": msg, "apps": [0, 1], "addrs": [0], "ops": [dict(o) for o in ops]})
     return out
 
 
@@ -118,11 +134,18 @@ def run(ctx):
         if len(res.samples) < 4 and tag == "walk" and len(sc["ops"]) >= 8 and mapped_any:
             res.samples.append({"history": H.describe(sc)[:12], "final": real[-1]["st"] if real else None})
         if d:
-            small = H.shrink(sc, differs, budget=200)
-            _, _, d2 = H.compare(small, drv)
-            d2 = d2 or d
-            res.disagreements.append({"stream": "exec." + tag, "input": small, "model": d2[2], "code": d2[3],
-                                      "where": f"op {d2[0]} {d2[1]}"})
+            # A disagreement never stops the search for a failing history (the model-free oracle below
+            # keeps running on every scenario); only the first few are shrunk, the rest are counted.
+            if len(res.disagreements) < 3:
+                small = H.shrink(sc, differs, budget=200)
+                _, _, d2 = H.compare(small, drv)
+                d2 = d2 or d
+                res.disagreements.append({"stream": "exec." + tag, "input": small, "model": d2[2], "code": d2[3],
+                                          "where": f"op {d2[0]} {d2[1]}"})
+            elif len(res.disagreements) < 40:
+                res.disagreements.append({"stream": "exec." + tag, "where": f"op {d[0]} {d[1]}", "model": d[2],
+                                          "code": d[3], "input": "(not shrunk)"})
+            res.count("disagreement:" + tag)
         if inv.failures:
             f = inv.failures[0]
 
@@ -164,7 +187,9 @@ def run(ctx):
                     ops.append(o)
             sc = H.fix_keeps({"hw": False, "apps": [0, 1], "addrs": [1], "ops": ops})
             check(sc, "exhaustive")
-            if len(res.failures) >= 5 or len(res.disagreements) >= 5:
+            if (len(seq) <= 2 or ctx.thorough and len(seq) == 3) and not any(o["k"] in ("keep", "reserve") for o in ops):
+                check(dict(sc, msg=True), "exhaustive-msg")   # the same life cycle through the message handlers
+            if len(res.failures) >= 5:
                 return res
 
     # subroutines of different applications in flight at the same time
@@ -176,7 +201,7 @@ def run(ctx):
         check({"hw": False, "apps": [0, 1], "addrs": [0], "ops": [
             {"k": "init", "a": 0, "n": 2}, {"k": "init", "a": 1, "n": 2},
             {"k": "spawn", "a": 0, "p": sub_a}, {"k": "spawn", "a": 1, "p": sub_b}] + ticks}, "interleaved")
-        if len(res.failures) >= 5 or len(res.disagreements) >= 5:
+        if len(res.failures) >= 5:
             return res
     # crash/abort points: subroutines dropped between instructions or at the yield point inside qfree's
     # reset hook, the hook raising once; then stop / re-register / allocate everything again
@@ -194,19 +219,19 @@ def run(ctx):
     n_abort = 3500 if ctx.thorough else 250
     for k in range(n_abort):
         check(H.abort_scenario(rng, rng.choice([10, 20, 40])), "abort")
-        if len(res.failures) >= 5 or len(res.disagreements) >= 5:
+        if len(res.failures) >= 5:
             return res
     # several executors in one process
     n_multi = 2000 if ctx.thorough else 150
     for k in range(n_multi):
         check(H.multi_scenario(rng, rng.choice([15, 30, 60])), "multi-executor")
-        if len(res.failures) >= 5 or len(res.disagreements) >= 5:
+        if len(res.failures) >= 5:
             return res
 
     n_par = 6000 if ctx.thorough else 300
     for k in range(n_par):
         check(H.par_scenario(rng, rng.choice([10, 20, 40])), "interleaved")
-        if len(res.failures) >= 5 or len(res.disagreements) >= 5:
+        if len(res.failures) >= 5:
             return res
 
     n_walks = 9000 if ctx.thorough else 400
@@ -216,7 +241,7 @@ def run(ctx):
         sc = g.c13_scenario(rng.choice([5, 10, 20, 40]), msg=msg)
         sc = H.fix_keeps(sc)
         check(sc, "walk")
-        if len(res.failures) >= 5 or len(res.disagreements) >= 5:
+        if len(res.failures) >= 5:
             break
     return res
 
